@@ -17,6 +17,34 @@
 // product is cheap); thorough widens methods/targets. Messages the reference itself rejects are
 // counted as "reference_rejected" and excluded (the property quantifies over forms on which both
 // are documented to agree); the counter is expected to be 0.
+//
+// State carried from one message to the next on a connection (added after an independently
+// seeded change was missed: a Trailer header on a non-chunked message that survived in the
+// parser's framing-header map and was demanded from the next chunked message):
+//   - header features that are legal on every framing class are generated on every framing class
+//     (crossForms): a Trailer declaration on Content-Length-framed and bodiless messages (net/http
+//     keeps it as a plain header), declarations spread over two Trailer lines, a declaration in
+//     front of Transfer-Encoding, Transfer-Encoding and Content-Length spellings together with
+//     trailers / with an empty body; Connection forms, repeated headers and empty values already
+//     are a full product with every body form;
+//   - pipelines: every ORDERED PAIR (quick) and every ordered triple (thorough; quick: triples of
+//     the Connection-less core) of a representative set, one representative per (framing class x
+//     body presence x trailer declaration {none, names A, names B-c+D; on a non-chunked message
+//     declared only, on a chunked one declared and sent} x Connection form / version), every
+//     representative with its own target and marker header, so that anything a predecessor leaves
+//     behind shows up in a successor that differs from it;
+//   - a successor that is rejected / not delivered / delivered differently although it parses
+//     correctly on a fresh connection is reported with the framing features of its predecessors:
+//     "pipeline-successor-rejected pred=content-length+trailer-declared succ=chunked verdict=...".
+//
+// Status lines (responses): every spelling net/http accepts that is inside the RFC 7230 grammar
+// (empty reason-phrase with its SP, several words, a reason that starts with a digit or with
+// punctuation, HTAB, surrounding spaces) on every framing class and in the pipelines. nbhttp keeps
+// the first word of a reason-phrase (recorded design): the first word is compared.
+//
+// The per-case allocator is httpgen's lite allocator (same isolation as verif/track: fresh per
+// case, no recycling, freed memory poisoned; no call-site attribution, which cost 80 % of the CPU
+// time): ownership violations are C11's business and only counted here.
 package main
 
 import (
@@ -100,6 +128,10 @@ func tr(decl string, sent ...H) func(b httpgen.Body) httpgen.Body {
 type bodyForm struct {
 	name string
 	b    httpgen.Body
+	// decl: Trailer header lines written among the ordinary header lines (Body.Declared stays
+	// empty), which is how a declaration gets onto a non-chunked message, in front of
+	// Transfer-Encoding, or onto two lines.
+	decl []H
 }
 
 func bodyForms() []bodyForm {
@@ -113,54 +145,139 @@ func bodyForms() []bodyForm {
 	}
 	with := func(b httpgen.Body, f func(*httpgen.Body)) httpgen.Body { f(&b); return b }
 	out := []bodyForm{
-		{"none", httpgen.Body{Kind: httpgen.BodyNone}},
-		{"cl0", httpgen.Body{Kind: httpgen.BodyCL, Data: []byte{}}},
-		{"cl1", httpgen.Body{Kind: httpgen.BodyCL, Data: P(1, 0)}},
-		{"cl3", httpgen.Body{Kind: httpgen.BodyCL, Data: P(3, 0)}},
-		{"cl300", httpgen.Body{Kind: httpgen.BodyCL, Data: P(300, 0)}},
-		{"cl3-nospace", httpgen.Body{Kind: httpgen.BodyCL, Data: P(3, 0), CLText: "3"}},
-		{"cl3-trailing-sp", httpgen.Body{Kind: httpgen.BodyCL, Data: P(3, 0), CLText: " 3  "}},
-		{"cl3-leading-zero", httpgen.Body{Kind: httpgen.BodyCL, Data: P(3, 0), CLText: " 03"}},
-		{"ch[]", ch()},
-		{"ch[1]", ch(1)},
-		{"ch[3]", ch(3)},
-		{"ch[10,5]", ch(10, 5)},
-		{"ch[16]", ch(16)},
-		{"ch[255,1]", ch(255, 1)},
-		{"ch[300]", ch(300)},
-		{"ch[255,1]-upper", with(ch(255, 1), func(b *httpgen.Body) { b.SizeFmt = 1 })},
-		{"ch[300]-upper", with(ch(300), func(b *httpgen.Body) { b.SizeFmt = 1 })},
-		{"ch[10,5]-zeros", with(ch(10, 5), func(b *httpgen.Body) { b.SizeFmt = 2 })},
-		{"ch[3]-ext", with(ch(3), func(b *httpgen.Body) { b.Ext = ";x=y" })},
-		{"ch[3,2]-extflag", with(ch(3, 2), func(b *httpgen.Body) { b.Ext = ";x" })},
-		{"ch[3]-TE-Chunked", with(ch(3), func(b *httpgen.Body) { b.TEText = " Chunked" })},
-		{"ch[3]-TE-nospace", with(ch(3), func(b *httpgen.Body) { b.TEText = "chunked" })},
+		{name: "none", b: httpgen.Body{Kind: httpgen.BodyNone}},
+		{name: "cl0", b: httpgen.Body{Kind: httpgen.BodyCL, Data: []byte{}}},
+		{name: "cl1", b: httpgen.Body{Kind: httpgen.BodyCL, Data: P(1, 0)}},
+		{name: "cl3", b: httpgen.Body{Kind: httpgen.BodyCL, Data: P(3, 0)}},
+		{name: "cl300", b: httpgen.Body{Kind: httpgen.BodyCL, Data: P(300, 0)}},
+		{name: "cl3-nospace", b: httpgen.Body{Kind: httpgen.BodyCL, Data: P(3, 0), CLText: "3"}},
+		{name: "cl3-trailing-sp", b: httpgen.Body{Kind: httpgen.BodyCL, Data: P(3, 0), CLText: " 3  "}},
+		{name: "cl3-leading-zero", b: httpgen.Body{Kind: httpgen.BodyCL, Data: P(3, 0), CLText: " 03"}},
+		{name: "ch[]", b: ch()},
+		{name: "ch[1]", b: ch(1)},
+		{name: "ch[3]", b: ch(3)},
+		{name: "ch[10,5]", b: ch(10, 5)},
+		{name: "ch[16]", b: ch(16)},
+		{name: "ch[255,1]", b: ch(255, 1)},
+		{name: "ch[300]", b: ch(300)},
+		{name: "ch[255,1]-upper", b: with(ch(255, 1), func(b *httpgen.Body) { b.SizeFmt = 1 })},
+		{name: "ch[300]-upper", b: with(ch(300), func(b *httpgen.Body) { b.SizeFmt = 1 })},
+		{name: "ch[10,5]-zeros", b: with(ch(10, 5), func(b *httpgen.Body) { b.SizeFmt = 2 })},
+		{name: "ch[3]-ext", b: with(ch(3), func(b *httpgen.Body) { b.Ext = ";x=y" })},
+		{name: "ch[3,2]-extflag", b: with(ch(3, 2), func(b *httpgen.Body) { b.Ext = ";x" })},
+		{name: "ch[3]-TE-Chunked", b: with(ch(3), func(b *httpgen.Body) { b.TEText = " Chunked" })},
+		{name: "ch[3]-TE-nospace", b: with(ch(3), func(b *httpgen.Body) { b.TEText = "chunked" })},
 	}
 	trailers := []struct {
 		name string
 		f    func(httpgen.Body) httpgen.Body
 	}{
-		{"t1", tr("A", H{"A", " 1"})},
-		{"t2", tr("A, B-c", H{"A", " 1"}, H{"B-c", " 22"})},
-		{"t-space", tr("A", H{"A", " hello world"})},
-		{"t-empty", tr("A", H{"A", ""})},
-		{"t-ows", tr("A", H{"A", "  1  "})},
-		{"t-repeat", tr("A", H{"A", " 1"}, H{"A", " 2"})},
-		{"t-lower", tr("a", H{"a", " 1"})},
-		{"t-decl-nospace", tr("A,B-c", H{"A", " 1"}, H{"B-c", " 22"})},
-		{"t-comma", tr("A", H{"A", " x,y"})},
-		{"t-reversed", tr("A, B-c", H{"B-c", " 22"}, H{"A", " 1"})},
-		{"t-tab", tr("A", H{"A", "\tv"})},
-		{"t-nospace", tr("A", H{"A", "v"})},
-		{"t-empty-then-value", tr("A, B-c", H{"A", ""}, H{"B-c", " 2"})},
-		{"t-space-2nd", tr("A, B-c", H{"A", " 1"}, H{"B-c", " x y z"})},
+		{name: "t1", f: tr("A", H{"A", " 1"})},
+		{name: "t2", f: tr("A, B-c", H{"A", " 1"}, H{"B-c", " 22"})},
+		{name: "t-space", f: tr("A", H{"A", " hello world"})},
+		{name: "t-empty", f: tr("A", H{"A", ""})},
+		{name: "t-ows", f: tr("A", H{"A", "  1  "})},
+		{name: "t-repeat", f: tr("A", H{"A", " 1"}, H{"A", " 2"})},
+		{name: "t-lower", f: tr("a", H{"a", " 1"})},
+		{name: "t-decl-nospace", f: tr("A,B-c", H{"A", " 1"}, H{"B-c", " 22"})},
+		{name: "t-comma", f: tr("A", H{"A", " x,y"})},
+		{name: "t-reversed", f: tr("A, B-c", H{"B-c", " 22"}, H{"A", " 1"})},
+		{name: "t-tab", f: tr("A", H{"A", "\tv"})},
+		{name: "t-nospace", f: tr("A", H{"A", "v"})},
+		{name: "t-empty-then-value", f: tr("A, B-c", H{"A", ""}, H{"B-c", " 2"})},
+		{name: "t-space-2nd", f: tr("A, B-c", H{"A", " 1"}, H{"B-c", " x y z"})},
 	}
 	for _, t := range trailers {
-		out = append(out, bodyForm{"ch[3]-" + t.name, t.f(ch(3))})
+		out = append(out, bodyForm{name: "ch[3]-" + t.name, b: t.f(ch(3))})
 	}
-	out = append(out, bodyForm{"ch[]-t1", tr("A", H{"A", " 1"})(ch())})
-	out = append(out, bodyForm{"ch[10,5]-ext-t2", with(tr("A, B-c", H{"A", " 1"}, H{"B-c", " 22"})(ch(10, 5)), func(b *httpgen.Body) { b.Ext = ";x=y" })})
+	out = append(out, bodyForm{name: "ch[]-t1", b: tr("A", H{"A", " 1"})(ch())})
+	out = append(out, bodyForm{name: "ch[10,5]-ext-t2", b: with(tr("A, B-c", H{"A", " 1"}, H{"B-c", " 22"})(ch(10, 5)), func(b *httpgen.Body) { b.Ext = ";x=y" })})
 	return out
+}
+
+// crossForms are the header features that are legal on every framing class, on the classes (and
+// in the combinations) the base product does not have: see the comment at the top.
+func crossForms() []bodyForm {
+	P := httpgen.Payload
+	clb := func(n int, text string) httpgen.Body {
+		return httpgen.Body{Kind: httpgen.BodyCL, Data: append([]byte{}, P(n, 0)...), CLText: text}
+	}
+	ch := func(sizes ...int) httpgen.Body {
+		b := httpgen.Body{Kind: httpgen.BodyChunked, Chunks: [][]byte{}}
+		for i, n := range sizes {
+			b.Chunks = append(b.Chunks, P(n, i+1))
+		}
+		return b
+	}
+	var out []bodyForm
+	// Content-Length spellings with an empty body
+	cl0 := []bodyForm{
+		{name: "cl0-nospace", b: clb(0, "0")},
+		{name: "cl0-trailing-sp", b: clb(0, " 0  ")},
+		{name: "cl0-leading-zero", b: clb(0, " 00")},
+	}
+	out = append(out, cl0...)
+	// a Trailer declaration on every non-chunked form
+	nonChunked := append([]bodyForm{
+		{name: "none", b: httpgen.Body{Kind: httpgen.BodyNone}},
+		{name: "cl0", b: clb(0, "")},
+		{name: "cl1", b: clb(1, "")},
+		{name: "cl3", b: clb(3, "")},
+		{name: "cl300", b: clb(300, "")},
+		{name: "cl3-nospace", b: clb(3, "3")},
+		{name: "cl3-trailing-sp", b: clb(3, " 3  ")},
+		{name: "cl3-leading-zero", b: clb(3, " 03")},
+	}, cl0...)
+	decls := []struct {
+		name  string
+		lines []H
+	}{
+		{"decl[A]", []H{{"Trailer", " A"}}},
+		{"decl[A, B-c]", []H{{"Trailer", " A, B-c"}}},
+		{"decl[A|B-c]", []H{{"Trailer", " A"}, {"Trailer", " B-c"}}},
+		{"decl[a]-lower-nospace", []H{{"trailer", "a"}}},
+	}
+	for _, f := range nonChunked {
+		for _, d := range decls {
+			out = append(out, bodyForm{name: f.name + "+" + d.name, b: f.b, decl: d.lines})
+		}
+	}
+	// chunked: the declaration as header lines (two lines; in front of Transfer-Encoding when the
+	// framing headers come last), all declared fields sent
+	sentAB := []H{{"A", " 1"}, {"B-c", " 22"}}
+	for _, f := range []bodyForm{{name: "ch[]", b: ch()}, {name: "ch[3]", b: ch(3)}, {name: "ch[10,5]", b: ch(10, 5)}} {
+		b := f.b
+		b.Trailers = sentAB
+		out = append(out, bodyForm{name: f.name + "+decl[A|B-c]-sent", b: b, decl: decls[2].lines})
+		out = append(out, bodyForm{name: f.name + "+decl[A, B-c]-sent", b: b, decl: decls[1].lines})
+	}
+	// Transfer-Encoding spellings x {no chunk, trailers}
+	for _, te := range []struct{ name, text string }{{"TE-Chunked", " Chunked"}, {"TE-nospace", "chunked"}, {"TE-UPPER", " CHUNKED"}, {"TE-ows", "  chunked \t"}} {
+		b0, b1, b2 := ch(), tr("A", H{"A", " 1"})(ch(3)), ch(3)
+		b0.TEText, b1.TEText, b2.TEText = te.text, te.text, te.text
+		out = append(out, bodyForm{name: "ch[]-" + te.name, b: b0}, bodyForm{name: "ch[3]-t1-" + te.name, b: b1})
+		if te.name == "TE-UPPER" || te.name == "TE-ows" {
+			out = append(out, bodyForm{name: "ch[3]-" + te.name, b: b2})
+		}
+	}
+	return out
+}
+
+// withDecl inserts Trailer header lines: the first one in front of or behind the first ordinary
+// header (by k), the others at the end.
+func withDecl(hs []H, decl []H, k int) []H {
+	if len(decl) == 0 {
+		return hs
+	}
+	at := k % 2
+	if at > len(hs) {
+		at = len(hs)
+	}
+	out := make([]H, 0, len(hs)+len(decl))
+	out = append(out, hs[:at]...)
+	out = append(out, decl[0])
+	out = append(out, hs[at:]...)
+	return append(out, decl[1:]...)
 }
 
 func withConn(hs []H, cf connForm, at int) []H {
